@@ -378,4 +378,18 @@ func TestC16(t *testing.T) {
 		}
 		runPxScenario(t, idx, "proxy", sc, em)
 	}
+	// end-to-end: real clients - real Proxy - real Demux keyed by source - real Servers
+	base := len(scs)
+	for i := 0; i < proxyE2ECount(); i++ {
+		if want(base + i) {
+			runProxyE2E(t, base+i, i, em)
+		}
+	}
+	// free-running stress judged by the property predicates
+	base += proxyE2ECount()
+	for i := 0; i < proxyFreeCount(); i++ {
+		if want(base + i) {
+			runProxyFree(t, base+i, i, em)
+		}
+	}
 }
